@@ -25,7 +25,7 @@ from harness.lib import gen as G
 from harness.lib import vtloop
 
 RULE = ('histories of 15..60 events on a started SvsInst (sync_interval in {1.25,2.5,5,30} s, suppression_interval in '
-        '{0.25,0.5,1,2} s, last_used_seq_num in {0,1,5,2^32,2^63}, 0..2 publications before start): received vectors '
+        '{0.25,0.5,1,2} s, last_used_seq_num in {0,1,5,255,65535,2^32-1,2^32,2^63}, 0..2 publications before start): received vectors '
         'newer / older / equal / incomparable / subset / unknown-node / over-claiming / self-ok / duplicate ids / '
         'entries without name or without sequence number / byte-mutated / random bytes / wrong name length; '
         'hand-encoded vectors (no library encoder): one entry of every presence shape {Name only, SeqNo only, empty entry, '
@@ -34,7 +34,13 @@ RULE = ('histories of 15..60 events on a started SvsInst (sync_interval in {1.25
         'as directed sweeps from one state; the oracle reads every received component of canonical layout off the wire itself '
         '(accepted / denote are evaluated on those entries, not on what the library decoded); '
         'publications; clock moves that stop short of, hit exactly, or pass the timer; directed suppression windows '
-        '(opener + 1..3 further vectors + expiry).  One case = one micro-step; non-trivial = it changed or read a '
+        '(opener + 1..3 further vectors + expiry); sequence numbers of every width: for each edge 2^8, 2^16, 2^24, 2^32, 2^40, 2^56, '
+        '2^63, 2^64 directed histories in which the own counter starts 1..5 below the edge and crosses it by publishing (at 2^64: '
+        'ends exactly at 2^64-1) while peers announce edge-1, edge, a random value of the next width and 2^64-1 for other nodes '
+        '(library-encoded or hand-encoded), each followed by a timer expiry, a publication or a suppression window; an input vector '
+        'the library encoder refuses is written by hand; after every step the timer task of the running instance must be alive '
+        '(an exception that ended it is the observation), a steady expiry must emit exactly one sync Interest, new_data() must not '
+        'raise.  One case = one micro-step; non-trivial = it changed or read a '
         'vector (accepted/rejected vector, publication, timer expiry); distinct by (state, event) hash')
 ASSUMPTIONS = [
     'time is counted in ticks of 2**-18 s; the float arithmetic of sample_sync_timer/sample_sup_timer is exact to far '
@@ -201,7 +207,20 @@ def read_state_vector(comp):
 
 
 def mk_component(entries):
-    """entries: list of (name-or-None, seq-or-None) -> bytes of the StateVecWrapper (a 0xc9 name component)"""
+    """entries: list of (name-or-None, seq-or-None) -> bytes of the StateVecWrapper (a 0xc9 name component).
+    Built with the library's encoder; a vector it refuses to encode (it is an INPUT here, what a peer put on the wire) is
+    written by hand instead"""
+    try:
+        return mk_component_lib(entries)
+    except Exception:   # noqa
+        STATS['gen:library-encoder-refused-input-vector'] = STATS.get('gen:library-encoder-refused-input-vector', 0) + 1
+        return hand_component(entries)
+
+
+STATS = {}
+
+
+def mk_component_lib(entries):
     import ndn.encoding as enc
     from ndn.app_support.svs.tlv import StateVec, StateVecWrapper, StateVecEntry
     w = StateVecWrapper()
@@ -318,6 +337,7 @@ class Runner:
         self.found = []              # (site, cls) of oracle failures in this history
         self.broken = False
         self.nsteps = 0
+        self.timer_dead = False      # the timer task ended although the instance is running (reported once per history)
 
     # -- reporting ---------------------------------------------------------------------------------
     def case_repr(self):
@@ -351,6 +371,7 @@ class Runner:
             env.loop.errors = []
         emitted = env.sent[before['nsent']:]
         cbs = after['cb'] - before['cb']
+        self.timer_alive(kind)
 
         # the model is stepped and compared only while it still agrees; the oracle below goes on regardless
         if not self.broken:
@@ -361,6 +382,23 @@ class Runner:
 
         # ---- direct oracle on the implementation's observations -------------------------------------
         self.oracle(kind, before, after, cbs, emitted, raised, wire)
+
+    def timer_alive(self, kind):
+        """the timer task is what emits (periodically, at suppression expiry, promptly after a publication): once it has ended
+        on a running instance -- an exception out of the code it runs is swallowed by the task -- nothing is ever emitted again"""
+        inst = self.env.inst
+        t = getattr(inst, 'timer_task', None)
+        if self.timer_dead or t is None or not getattr(inst, 'running', False) or not t.done():
+            return
+        self.timer_dead = True
+        try:
+            exc = t.exception() if not t.cancelled() else 'cancelled'
+        except BaseException as e:   # noqa
+            exc = e
+        self.ctx.stat('timer-task-ended')
+        self.violation(SITE_T, 'timer-task-ended-' + (type(exc).__name__ if isinstance(exc, BaseException) else str(exc)),
+                       f'after this {kind} step the timer task of the running instance has ended ({exc!r}): no sync Interest '
+                       f'can be emitted any more (local vector {norm(self.env.snap()["local"])!r})')
 
     def correspond(self, kind, mevents, before, after, emitted, cbs, raised):
         ctx = self.ctx
@@ -447,9 +485,16 @@ class Runner:
             want[sid] = before['seq'] + 1
             if norm(want.items()) != na:
                 self.violation(SITE_P, 'publish-entry', f'local after publication {na!r}, expected {norm(want.items())!r}')
+            if raised is not None:
+                self.violation(SITE_P, 'publish-raised-' + type(raised).__name__, f'new_data() raised {raised!r}')
             if len(emitted) != 1:
                 self.violation(SITE_P, 'publish-no-prompt-sync-interest',
                                f'{len(emitted)} sync Interests emitted promptly after new_data()')
+        elif kind == 'fire' and not before['supp']:
+            # C18_periodic: a timer expiry in the steady state emits (exactly one sync Interest, the full vector: above)
+            if len(emitted) != 1:
+                self.violation(SITE_T, 'steady-expiry-missing-emit' if not emitted else 'steady-expiry-several-emits',
+                               f'{len(emitted)} sync Interests emitted at a timer expiry in the steady state (local {nb!r})')
         elif kind == 'fire' and before['supp']:
             hd = self.heard if self.heard is not None else []
             need = bool(M([13, before['local'], hd]))
@@ -727,7 +772,7 @@ def gen_adv(rng, rn):
     return ['adv', d, r]
 
 
-def run_window(rng, rn):
+def run_window(rng, rn, allow_pub=True):
     """directed: open a suppression window with an outdated vector, 0..3 further vectors, then its expiry"""
     def vec(kind):
         return ['recv', rng.getrandbits(16), [mk_component(gen_vector(rng, rn, kind)), DIGEST]]
@@ -740,7 +785,7 @@ def run_window(rng, rn):
             plan.append(lambda: ['recv', rng.getrandbits(16), [gen_shaped(rng, rn), DIGEST]])
         else:
             plan.append(lambda k=k: vec(k))
-    if rng.random() < 0.15:
+    if allow_pub and rng.random() < 0.15:
         plan.append(lambda: ['pub', rng.getrandbits(16)])
     plan.append(lambda: gen_adv_fire(rng, rn))
     n = 0
@@ -758,7 +803,7 @@ def gen_adv_fire(rng, rn):
 
 def gen_cfg(rng):
     return {'self': rng.choice(SELVES), 'I': rng.choice([1.25, 2.5, 5.0, 30.0]), 'S': rng.choice([0.25, 0.5, 1.0, 2.0]),
-            'last': rng.choice([0, 0, 1, 5, 5, 2 ** 32, 2 ** 63]), 'k': rng.choice([0, 0, 0, 1, 2]),
+            'last': rng.choice([0, 0, 1, 5, 5, 2 ** 32, 2 ** 63, 255, 65535, 2 ** 32 - 1]), 'k': rng.choice([0, 0, 0, 1, 2]),
             'r0': rng.getrandbits(16)}
 
 
@@ -783,6 +828,59 @@ def random_history(ctx, rng, nev):
                 n += run_window(rng, rn)
             else:
                 n += run_shapes(rng, rn)
+    finally:
+        rn.close()
+    return rn
+
+
+# sequence numbers of every width: a SeqNo is a NonNegativeInteger of 1 / 2 / 4 / 8 bytes, any value up to 2**64-1 is legal, in a
+# received vector as well as in the own counter.  Directed histories around every power of two at which the encoded width (or
+# the width of any fixed-size representation) changes.
+WIDTH_EDGES = [1 << 8, 1 << 16, 1 << 24, 1 << 32, 1 << 40, 1 << 56, 1 << 63, 1 << 64]
+WIDTH_PUBS = 4
+
+
+def width_history(ctx, rng, edge, variant):
+    """the own counter is started just below `edge` and crosses it by publishing (at `1 << 64`: ends exactly at 2**64-1, the
+    largest sequence number there is); peers announce edge-1, edge, and a random value of the next width for other nodes;
+    after every step that changes the vector: a timer expiry / a publication / a suppression window, each of which must emit"""
+    k = variant % 3
+    slack = 0 if edge > MAXSEQ else (variant // 3) % 3
+    last = min(edge, MAXSEQ + 1) - 1 - k - (WIDTH_PUBS if edge > MAXSEQ else slack)
+    cfg = {'self': SELVES[variant % len(SELVES)], 'I': rng.choice([1.25, 2.5, 5.0, 30.0]), 'S': rng.choice([0.25, 0.5, 1.0, 2.0]),
+           'last': last, 'k': k, 'r0': rng.getrandbits(16)}
+    rn = Runner(ctx, cfg)
+    ctx.stat(f'gen:width-history-2^{edge.bit_length() - 1}')
+    sid = rn.env.self_id
+    others = [n for n in NODES if n != sid]
+    x, y, z = rng.sample(others, 3)
+    hand = variant % 2 == 1
+
+    def vec(entries):
+        comp = hand_component(entries, rng) if hand else mk_component(entries)
+        return ['recv', rng.getrandbits(16), [comp, DIGEST]]
+
+    def pub():
+        return ['pub', rng.getrandbits(16)]
+
+    def fire():
+        return gen_adv_fire(rng, rn)
+    hi = min(MAXSEQ, 2 * edge - 1)
+    steps = [pub, fire,
+             lambda: vec([(x, edge - 1)]), fire,
+             pub,
+             lambda: vec([(x, min(MAXSEQ, edge)), (sid, rn.env.inst.self_seq)]), fire,
+             lambda: vec([(y, rng.randint(min(MAXSEQ, edge), hi)), (x, edge - 2)]), fire,
+             pub, fire,
+             lambda: vec([(z, MAXSEQ)] if variant % 4 == 0 else [(z, rng.randint(min(MAXSEQ, edge), hi))]),
+             'window', pub, fire]
+    try:
+        rn.start()
+        for f in steps:
+            if f == 'window':
+                run_window(rng, rn, allow_pub=False)
+            else:
+                rn.do(f())
     finally:
         rn.close()
     return rn
@@ -829,15 +927,20 @@ def run(ctx):
     for cfg, evs in corpus():
         execute(ctx, cfg, evs)
     nhist = ctx.n(160, 6000)
-    for h in range(nhist):
-        rn = random_history(ctx, rng, rng.randint(15, 60))
+    nwidth = ctx.n(2, 36)
+    plan = [('width', e, v) for e in WIDTH_EDGES for v in range(nwidth)] + [('random',)] * nhist
+    for h in plan:
+        rn = width_history(ctx, rng, h[1], h[2]) if h[0] == 'width' else random_history(ctx, rng, rng.randint(15, 60))
         new = [f for f in dict.fromkeys(rn.found) if f not in seen]
         for f in new:
             seen.add(f)
             small = shrink(ctx, rn.cfg, rn.log, f)
             if len(small) < len(rn.log):
                 execute(ctx, rn.cfg, small)      # reports the smaller witness (ctx keeps the smallest per class)
-    ctx.extra['histories'] = nhist + 2
+    for k, v in STATS.items():
+        ctx.stat(k, v)
+    STATS.clear()
+    ctx.extra['histories'] = nhist + 2 + len(WIDTH_EDGES) * nwidth
     ctx.extra['tick_seconds'] = TICK
 
 
